@@ -69,6 +69,8 @@ def outsideEps (eps : α) (x lo hi : XR α) : Bool := lt x (lo.subEps eps) || lt
 def outside (x lo hi : XR α) : Bool := lt x lo || lt hi x
 /-- not NaN and inside the closed interval -/
 def within (x lo hi : XR α) : Bool := !x.isNaN && !lt x lo && !lt hi x
+/-- the property's conditioning of an assigned value: NaN, inside / on the bounds, or outside by more than EPS -/
+def inRegion (eps : α) (x lo hi : XR α) : Bool := x.isNaN || within x lo hi || outsideEps eps x lo hi
 end XR
 
 /-! ### element-wise helpers (numpy broadcasting is not involved: all arrays have length `nval`) -/
@@ -112,6 +114,8 @@ def Store.write (s : Store α) (r : Nat) (i : Nat) (x : XR α) : Store α :=
 
 inductive Err
   | flagConflict | dupNames | badLength | nanValue | maxsOutside | defaultsOutside | unknownKey | index
+  /-- `getattr(vect, name)` on a non-name (AttributeError), a value `float()` rejects, a failing copy protocol -/
+  | noAttr | notNumber | copyProtocol
   deriving DecidableEq, Repr
 
 inductive Out
@@ -293,10 +297,38 @@ inductive Op (α : Type) where
   | reset (k : Nat)
   | clone (k : Nat)
   | dictRT (k : Nat)
+  /-- `vect[name]` (ValueError on an unknown key) -/
+  | getKey (k : Nat) (name : String)
+  /-- `vect.name` / `getattr(vect, name)` (AttributeError on a non-name) -/
+  | getAttr (k : Nat) (name : String)
+  /-- every other pure accessor: `to_dict()`, `to_series()`, `str(vect)`, the property getters `nval`, `names`,
+  `values`, `mins`, `maxs`, `defaults`, `hitbounds`, `check_bounds`, `check_hitbounds`, `accept_nan` -/
+  | read (k : Nat)
+  /-- assignment (by attribute, by key or whole-vector) of something `np.float64()` / `astype(float64)` rejects -/
+  | setBad (k : Nat)
+  /-- `copy.deepcopy(vect)` / `pickle.loads(pickle.dumps(vect))`. Whether CPython's copy protocol manages to
+  rebuild the object is external to the class (`works`, observed by the harness; on the pinned class it does not:
+  `__getattribute__` reads `_names` on the blank instance). When it works the result is an independent deep copy. -/
+  | pyCopy (k : Nat) (works : Bool)
   deriving Repr
 
 def Op.target : Op α → Nat
-  | .setAttr k _ _ | .setKey k _ _ | .setAll k _ | .reset k | .clone k | .dictRT k => k
+  | .setAttr k _ _ | .setKey k _ _ | .setAll k _ | .reset k | .clone k | .dictRT k
+  | .getKey k _ | .getAttr k _ | .read k | .setBad k | .pyCopy k _ => k
+
+/-- the value `vect[name]` / `vect.name` returns -/
+def readItem (w : World α) (k : Nat) (name : String) : Option (XR α) :=
+  match w.vecs[k]? with
+  | none => none
+  | some v => match indexOf name v.names with
+    | none => none
+    | some i => (w.store.cells v.values)[i]?
+
+/-- an operation on the `k`-th vector that only looks -/
+def World.peek (w : World α) (k : Nat) (f : Store α → Vec → Out) : World α × Out :=
+  match w.vecs[k]? with
+  | none => (w, .rejected .index)
+  | some v => (w, f w.store v)
 
 /-- an operation on the `k`-th vector that mutates that vector -/
 def World.update (w : World α) (k : Nat) (f : Store α → Vec → (Store α × Vec) × Out) : World α × Out :=
@@ -324,6 +356,17 @@ def step [OfNat α 0] (eps : α) (w : World α) : Op α → World α × Out
   | .reset k => w.update k fun s v => reset eps s v
   | .clone k => w.spawn k fun s v => clone eps s v
   | .dictRT k => w.spawn k fun s v => fromDict eps s (toDict s v)
+  | .getKey k nm => w.peek k fun _ v => match indexOf nm v.names with
+      | none => .rejected .unknownKey
+      | some _ => .ok
+  | .getAttr k nm => w.peek k fun _ v => match indexOf nm v.names with
+      | none => .rejected .noAttr
+      | some _ => .ok
+  | .read k => w.peek k fun _ _ => .ok
+  | .setBad k => w.peek k fun _ _ => .rejected .notNumber
+  | .pyCopy k works =>
+    if works then w.spawn k fun s v => clone eps s v
+    else w.peek k fun _ _ => .rejected .copyProtocol
 
 def run [OfNat α 0] (eps : α) (w : World α) : List (Op α) → World α
   | [] => w
